@@ -175,13 +175,9 @@ func ruleWarcWait(r *core.Reporter) {
 		}
 	}
 	// the wait
-	isWait := func(in ssa.Instruction) bool {
-		u, ok := in.(*ssa.UnOp)
-		if !ok || u.Op != token.ARROW {
-			return false
-		}
+	isAttemptChan := func(v ssa.Value) bool {
 		var leaves []ssa.Value
-		phiLeaves(u.X, map[ssa.Value]bool{}, &leaves)
+		phiLeaves(v, map[ssa.Value]bool{}, &leaves)
 		hasMC := false
 		for _, l := range leaves {
 			if l == ssa.Value(mc) {
@@ -191,6 +187,32 @@ func ruleWarcWait(r *core.Reporter) {
 			}
 		}
 		return hasMC
+	}
+	isWait := func(in ssa.Instruction) bool {
+		if u, ok := in.(*ssa.UnOp); ok && u.Op == token.ARROW {
+			return isAttemptChan(u.X)
+		}
+		// a helper that receives from the channel it is given, on every path
+		if c, ok := in.(*ssa.Call); ok {
+			h := ir.CalleeOf(c.Common())
+			if h == nil || !core.InModule(h) || h.Blocks == nil {
+				return false
+			}
+			for k, a := range c.Call.Args {
+				if k >= len(h.Params) || !isAttemptChan(ir.Strip(a)) {
+					continue
+				}
+				par := h.Params[k]
+				ev := ir.Event{ID: "recv-param-" + par.Name(), Match: func(x ssa.Instruction) bool {
+					u, isU := x.(*ssa.UnOp)
+					return isU && u.Op == token.ARROW && resolveParam(u.X, 0) == par
+				}}
+				if ir.MustHit(h, ev, 0) {
+					return true
+				}
+			}
+		}
+		return false
 	}
 	res := ir.Reach([]ir.Pt{ir.After(do)}, ir.Opts{Stop: isWait, EdgeOK: pruneAsync})
 	var bad ssa.Instruction
